@@ -24,6 +24,9 @@ pub struct Case {
     /// long input: every file's lines are repeated this many times and only the listed LIMIT values (as per-mille of the row count, plus offsets) are tried
     #[serde(default)]
     pub long: Option<(usize, Vec<u64>)>,
+    /// index (over all files) of a line replaced by invalid UTF-8: a LIMIT satisfied before it must not report the read error
+    #[serde(default)]
+    pub bad_line: Option<usize>,
 }
 
 pub struct C07;
@@ -37,7 +40,7 @@ impl Property for C07 {
 
     fn rule(&self) -> String {
         "a statement without LIMIT (plain, DISTINCT, join with fan-out, aggregate +- GROUP BY) x input of <= 16 lines split over 1-3 files, including rows whose projected columns are all NULL (one case in 30: every file repeated to 600-6000 lines in total, about a dozen LIMIT values spread over the row count); \
-         for EVERY n in 0..=rows+2 the statement with LIMIT n is run. Oracle (metamorphic): records(LIMIT n) = first n records of the unlimited run; a non-aggregate statement consumes exactly the lines up to \
+         for EVERY n in 0..=rows+2, and for 2^31, 2^32, 10^12 and 2^63-1, the statement with LIMIT n is run; in one case in eight a later line is unreadable (invalid UTF-8): a LIMIT satisfied by the lines before it must behave as if the input ended there. Oracle (metamorphic): records(LIMIT n) = first n records of the unlimited run; a non-aggregate statement consumes exactly the lines up to \
          the one that produced its n-th row (0 lines for n = 0, all lines when there are fewer rows; attribution by feeding the unlimited statement line by line through the engine); an aggregate \
          statement consumes everything and keeps the first n groups. Non-trivial: some 0 < n < rows with >= 2 files or a fan-out line or a NULL-only row; distinct by case."
             .to_string()
@@ -94,7 +97,8 @@ impl Property for C07 {
         } else {
             None
         };
-        Case { table: g.table, joined: g.joined, query: g.query, files, joined_lines, long }
+        let bad_line = if long.is_none() && total >= 2 && t.chance(1, 8) { Some(1 + t.draw(total - 1)) } else { None };
+        Case { table: g.table, joined: g.joined, query: g.query, files, joined_lines, long, bad_line }
     }
 
     fn check(&self, case: &Case, ctx: &Ctx, obs: &mut Obs) -> Result<(), Failure> {
@@ -106,9 +110,36 @@ impl Property for C07 {
             }
             None => case.files.clone(),
         };
-        let contents: Vec<Vec<u8>> = expanded.iter().map(|f| lines_to_bytes(f)).collect();
-        let files = scratch_files(ctx, "c07", &contents);
-        let all_lines: Vec<&String> = expanded.iter().flatten().collect();
+        // an unreadable line: the files as the LIMIT statements see them contain it, the unlimited reference run gets
+        // the readable lines in front of it (everything a satisfied LIMIT may touch)
+        let bad = case.bad_line.filter(|b| *b < expanded.iter().map(|f| f.len()).sum::<usize>());
+        let mut contents: Vec<Vec<u8>> = Vec::new();
+        let mut readable: Vec<Vec<String>> = Vec::new();
+        let mut index = 0usize;
+        for f in &expanded {
+            let mut bytes = Vec::new();
+            let mut keep = Vec::new();
+            for l in f {
+                if bad == Some(index) {
+                    bytes.extend_from_slice(b"c0=1;\xff\xfe;\n");
+                } else {
+                    bytes.extend_from_slice(l.as_bytes());
+                    bytes.push(b'\n');
+                    if bad.map(|b| index < b).unwrap_or(true) {
+                        keep.push(l.clone());
+                    }
+                }
+                index += 1;
+            }
+            contents.push(bytes);
+            readable.push(keep);
+        }
+        if bad.is_some() {
+            obs.label("unreadable-line-after-limit");
+        }
+        let limited_files = scratch_files(ctx, "c07", &contents);
+        let files = if bad.is_some() { scratch_files(ctx, "c07r", &readable.iter().map(|f| lines_to_bytes(f)).collect::<Vec<_>>()) } else { limited_files.clone() };
+        let all_lines: Vec<&String> = readable.iter().flatten().collect();
         let context = format!("query (without LIMIT): {}\n  tables: {}\n  files: {:?} (each repeated {} time(s))\n  joined lines: {:?}", unlimited.text, unlimited.defs, case.files, case.long.as_ref().map(|l| l.0).unwrap_or(1), case.joined_lines);
         let panic_fail = |p: String| Failure::new(format!("panic: {}", crate::run::panic_class(&p)), format!("panicked: {}\n  {}", p, context));
 
@@ -179,7 +210,12 @@ impl Property for C07 {
                 v.dedup();
                 v
             }
-            None => (0..=(urec.len() as u64 + 2)).collect(),
+            None => {
+                let mut v: Vec<u64> = (0..=(urec.len() as u64 + 2)).collect();
+                // far beyond the row count: same as no LIMIT
+                v.extend([1u64 << 31, 1u64 << 32, 1_000_000_000_000, i64::MAX as u64]);
+                v
+            }
         };
         for n in limits {
             if n == 0 && ctx.excluded("c07_limit_zero") {
@@ -189,7 +225,11 @@ impl Property for C07 {
             let mut q = case.query.clone();
             q.limit = Some(n);
             let limited = prepare(ctx, &case.table, case.joined.as_ref(), &q, &case.joined_lines, "c07")?;
-            let l = run_batch(&limited.tables, &limited.statement, &files, RunOptions::default()).map_err(panic_fail)?;
+            if bad.is_some() && (aggregate || n == 0 || n > urec.len() as u64) {
+                // an aggregate reads everything, and so does a LIMIT that is never satisfied: both meet the unreadable line
+                continue;
+            }
+            let l = run_batch(&limited.tables, &limited.statement, &limited_files, RunOptions::default()).map_err(panic_fail)?;
             obs.inner += 1;
             let want: Vec<String> = urec.iter().take(n as usize).cloned().collect();
             let class = if n == 0 { "n=0".to_string() } else { kind.to_string() };
